@@ -42,7 +42,7 @@ def jobs(tier):
     for e in CAT.build(4, "quick"):
         if (e.name in PRELUDE_SUBSET or e.name in ("assert_lt_ss", "assert_positive", "assert_eq_ss")) and selected(e) \
                 and not (e.tags & {"truediv", "floordiv", "mod"}):        # (their division-by-zero finding is recorded for the plain modes)
-            for pre in (["false_region"], ["aborted_region"]):
+            for pre in (["false_region"], ["aborted_region"], ["self_first"]):
                 js.append(dict(name="%s/n4/guard-after-%s" % (e.name, pre[0]), entry=e.name, backend="snarkjs",
                                cfg=dict(n=4, r=2, guard="sym", bound=(1 << 64), prelude=pre), tier=tier, weight=3))
     return js
